@@ -45,6 +45,7 @@ MIN_INSTANCES = 40
 def scan_states_rule(ctx: Ctx, rule: str) -> None:
     fref = f"{NODE}:TestNode.scan_states"
     fn = ctx.repo.func(fref)
+    ctx.require_locals(fref, ["should_run", "node_params", "object_state", "object_params"])
     views = function_views(ctx, fref, names_interesting({"should_run", "run_subcontrol", "is_permanent", "set_subcontrol_parameter"}))
     n, problems = 0, []
     for view in views:
@@ -157,6 +158,7 @@ def pass_only_rule(ctx: Ctx, rule: str) -> None:
 def pull_locations_rule(ctx: Ctx, rule: str) -> None:
     fref = f"{NODE}:TestNode.pull_locations"
     fn = ctx.repo.func(fref)
+    ctx.require_locals(fref, ["setup_path"])
     ctx.touch(fref)
     loops = {ast.unparse(l.iter): l for l in ast.walk(fn.node) if isinstance(l, ast.For)}
     node_loop = loops.get("self.setup_nodes")
